@@ -250,10 +250,13 @@ def cursor_pairing(ctx, R, prog):
             def nn(e, pol):
                 return isinstance(e, int) and rl.fact_nonnull(f, e, pol, lambda j: (f.nodes[j]["k"] == "DeclRefExpr" and f.nodes[j]["d"] == d) or
                                                               (f.nodes[j]["k"] == "BinaryOperator" and f.nodes[j]["op"] == "=" and f.is_ref(f.nodes[j]["c"][0], d)))
-            starts = [q for p, q, e, pol in rl.edges_with_fact(f, nn) if cfg.reaches(cfg.after(c), p)]
             others = [cfg.pt(x) for x in f.calls("_mi_arena_segment_clear_abandoned_next")]
             done = lambda e: rl.is_call(f, e, ("_mi_arena_segment_mark_abandoned", "mi_segment_reclaim")) and rl.var_of(f, f.nodes[e]["args"][0]) == d
-            w = cfg.must_pass(starts, cfg.exit_points() + others, done) if starts else ["no non-NULL edge"]
+            def is_null(e, pol):
+                return isinstance(e, int) and rl.fact_null(f, e, pol, lambda j: (f.nodes[j]["k"] == "DeclRefExpr" and f.nodes[j]["d"] == d) or
+                                                           (f.nodes[j]["k"] == "BinaryOperator" and f.nodes[j]["op"] == "=" and f.is_ref(f.nodes[j]["c"][0], d)))
+            # from the fetch itself: unless the result is established to be NULL, the segment must be handed back before the next fetch / the exit
+            w = cfg.must_pass([cfg.after(c)], cfg.exit_points() + others, done, edge_ok=lambda lab, p, q: not any(is_null(e, pol) for e, pol in cfg.facts(lab)))
             ctx.check(R, w is None, f.where(c), "every segment taken by the cursor is re-marked or reclaimed before the next fetch / the return", key=R + ":pair:%s" % cname, witness=w)
     if n < 4:
         raise AnalysisBroken("cursor pairing: %d cursor fetch sites, 4 confirmed" % n)
